@@ -141,7 +141,7 @@ def h_default(ctx, kind, sign, nmax, controls):
     curves = list(arc.as_cubic_curves() if kind == "cubic" else arc.as_quad_curves())
     n = len(curves)
     w = sweep if sign > 0 else 0 - sweep
-    lim = ctx.num(Fraction(TAU) / 12)
+    lim = ctx.num(Fraction(TAU / 12.0))      # the float the code divides by
     ctx.claim("default subdivision: the least count with slices of at most 30 degrees", ctx.and_(ctx.le(w, n * lim), ctx.gt(w, (n - 1) * lim)))
     _claims(ctx, kind, curves, n, arc, start, end, cx, cy, a, b, co, si, t0, sweep, controls=controls)
 
@@ -225,7 +225,7 @@ def h_path(ctx, kind, error, sign, nmax):
             S.Arc.get_start_t = orig
     n = len(p) - 4
     w = sweep if sign > 0 else 0 - sweep
-    lim = ctx.num(Fraction(TAU) * Fraction(error))
+    lim = ctx.num(Fraction(TAU * error))     # the float the code divides by
     ctx.claim("path: slices of at most tau * error", ctx.and_(ctx.le(w, n * lim), ctx.gt(w, (n - 1) * lim)))
     if n < 1:
         return
@@ -263,6 +263,8 @@ def harnesses(tier):
     common = {"claim_timeout_ms": to, "no_dual": True, "branch_timeout_ms": 2000}
     for kind in ("cubic", "quad"):
         for band in ((36, 1), (18, 4), (9, 16)):
+            if kind == "cubic" and band[0] == 9 and not th:
+                continue        # 200 s per instance: thorough tier only
             for sign in (1, -1):
                 for s in (0.25, 0.5, 0.75):
                     hs.append(dict(common, name="kernel/%s/%d/%+d/s=%s" % (kind, band[0], sign, s), fn="h_kernel",
